@@ -19,6 +19,8 @@ def replay_line(rec, weights, wtype='double', algo=None, extra=''):
         s += ' order=%s' % rec['order']
     if rec.get('perm'):
         s += ' perm=%s' % rec['perm']
+    if rec.get('layout'):
+        s += ' layout=%s' % rec['layout']
     return s + extra
 
 
@@ -52,6 +54,7 @@ class Outcome:
         self.n_confirmed = 0
         self.n_known = 0
         self.replays = []
+        self.unreproduced = []
 
 
 def confirm_violations(prop, agg, r_mcb, predicate, keyfn, out, max_replays=40, wtypes=('double',)):
@@ -86,6 +89,7 @@ def confirm_violations(prop, agg, r_mcb, predicate, keyfn, out, max_replays=40, 
         todo.append((rec, {'name': prop + ':crash(signal %s)' % rec.get('signal')}, weights))
         if len(todo) >= max_replays + 10:
             break
+    unrepro = []
     for idx, (rec, obl, weights) in enumerate(todo):
         confirmed = None
         for wt in wtypes:
@@ -95,9 +99,9 @@ def confirm_violations(prop, agg, r_mcb, predicate, keyfn, out, max_replays=40, 
                 confirmed = (line, o)
                 break
         if confirmed is None:
-            out.fault = 'counterexample did not reproduce on the real build: %s / %s / weights %s' % (
-                rec.get('case'), obl['name'], weights)
-            return
+            # e.g. behaviour that depends on the address order of the edges, which the replay cannot always reproduce
+            unrepro.append('%s / %s / weights %s' % (rec.get('case'), obl['name'], weights))
+            continue
         line, o = confirmed
         key = keyfn(rec, obl)
         rp = os.path.join(cex_dir(), '%s-replay-%d.json' % (prop, idx))
@@ -115,6 +119,9 @@ def confirm_violations(prop, agg, r_mcb, predicate, keyfn, out, max_replays=40, 
         else:
             out.n_confirmed += 1
             out.violation_lines.append('VIOLATION property=%s replay=%s' % (prop, rp))
+    out.unreproduced = unrepro
+    if unrepro and not (out.n_confirmed or out.n_known):
+        out.fault = 'no counterexample reproduced on the real build (%d tried), first: %s' % (len(unrepro), unrepro[0])
 
 
 def real_violation(out, prop, line, o, key, why='the real build violates the property on a leaf model (found by translation validation)'):
@@ -152,8 +159,13 @@ def translation_validate(agg_leaves, r_mcb, tier, seed, with_int=True, cap=None,
             continue
         if max(weights + [0]) > 2 ** 40:
             continue
-        for wt in (('double', 'int') if with_int else ('double',)):
+        for wt in (('double', 'int', 'dyadic') if with_int else ('double',)):
             if wt == 'int' and sum(weights) * 4 > 2 ** 30:
+                continue
+            if wt == 'dyadic':
+                # the same weights divided by 8: non-integral but exactly representable doubles (property domain: dyadic doubles)
+                lines.append(replay_line(rec, [w / 8.0 for w in weights], 'double'))
+                meta.append((rec, fractions.Fraction(den, 8), wt))
                 continue
             lines.append(replay_line(rec, weights, wt))
             meta.append((rec, den, wt))
@@ -190,6 +202,7 @@ def finish(prop, tier, seed, level, agg, out, coverage_extra, assumptions, t0, n
         'crashes': len(agg.crashes),
         'replays': out.replays[:20],
         'known_findings_hit': out.n_known,
+        'counterexamples_not_reproduced_on_real_build': len(getattr(out, 'unreproduced', [])),
         'exhaustive': False,
     }
     cov.update(coverage_extra)
